@@ -156,6 +156,8 @@ def playback(unit, target_rel, harness, replay_path, timeout=1800, extra_units=(
         # the printed test is inside a ```rust fenced block (possibly several: one per harness matching the filter)
         blocks = re.findall(r'```(?:rust)?\n(.*?)```', txt, flags=re.S)
         blocks = [b for b in blocks if f'fn kani_concrete_playback_{harness}' in b] or blocks
+        # one test is printed per failed check AND per satisfied cover: prefer the counterexamples of failed checks
+        blocks = [b for b in blocks if 'Check for `cover`' not in b and 'cover condition' not in b] or blocks
         if not blocks:
             out['log'] = 'no concrete playback test printed\n' + txt[-2000:]
             return out
@@ -182,7 +184,8 @@ def playback(unit, target_rel, harness, replay_path, timeout=1800, extra_units=(
         log = p2.stdout + '\n' + p2.stderr
         out['ran'] = 'running 1 test' in log or 'test result' in log
         out['failed_natively'] = bool(re.search(r'test result: FAILED|panicked at', log))
-        out['log'] = log[-3000:]
+        keep = [l for l in log.split('\n') if not l.lstrip().startswith('Running `') and ' -L dependency=' not in l]
+        out['log'] = '\n'.join(keep)[-3000:]
         out['playback_cmd'] = 'CARGO_NET_OFFLINE=true ' + ' '.join(cmd2)
     finally:
         shutil.rmtree(root, ignore_errors=True)
